@@ -245,10 +245,41 @@ func swapSync(name string, src []byte, heapqFrom string) []byte {
 			return true
 		})
 	}
+	// sync/atomic: types and functions become simsync wrappers that yield.
+	atomicName, atomicSpec := importName(f, "sync/atomic")
+	aSwapped, aRemaining := 0, 0
+	if atomicName != "" && atomicName != "_" && atomicName != "." {
+		ast.Inspect(f, func(n ast.Node) bool {
+			se, ok := n.(*ast.SelectorExpr)
+			if !ok {
+				return true
+			}
+			id, ok := se.X.(*ast.Ident)
+			if !ok || id.Name != atomicName || id.Obj != nil {
+				return true
+			}
+			if atomicWrapped[se.Sel.Name] {
+				edits = append(edits, edit{off(se.Pos()), off(se.End()), "simsync.Atomic" + se.Sel.Name})
+				aSwapped++
+				rep.Rewrites["atomic."+se.Sel.Name]++
+			} else {
+				aRemaining++
+			}
+			return true
+		})
+		if aSwapped > 0 && aRemaining == 0 {
+			if atomicSpec.Name != nil {
+				edits = append(edits, edit{off(atomicSpec.Name.Pos()), off(atomicSpec.Name.End()), "_"})
+			} else {
+				edits = append(edits, edit{off(atomicSpec.Path.Pos()), off(atomicSpec.Path.Pos()), "_ "})
+			}
+		}
+	}
+	swapped += aSwapped
 	if swapped > 0 {
 		// Keep line numbers: put the new import on the package clause's line.
 		edits = append(edits, edit{off(f.Name.End()), off(f.Name.End()), "; import simsync \"" + simsyncPkg + "\""})
-		if remaining == 0 {
+		if remaining == 0 && swapped > aSwapped {
 			if syncSpec.Name != nil {
 				edits = append(edits, edit{off(syncSpec.Name.Pos()), off(syncSpec.Name.End()), "_"})
 			} else {
@@ -268,6 +299,18 @@ func swapSync(name string, src []byte, heapqFrom string) []byte {
 	}
 	return apply(src, edits)
 }
+
+// atomicWrapped lists the names of sync/atomic that simsync wraps.
+var atomicWrapped = func() map[string]bool {
+	m := map[string]bool{"Bool": true, "Pointer": true, "Value": true}
+	for _, n := range []string{"Int32", "Int64", "Uint32", "Uint64", "Uintptr"} {
+		m[n] = true
+		for _, f := range []string{"Load", "Store", "Add", "Swap", "CompareAndSwap"} {
+			m[f+n] = true
+		}
+	}
+	return m
+}()
 
 // findPools lists package-level variables initialised with a sync.Pool
 // literal (by value or by address).
